@@ -481,4 +481,57 @@ theorem negate_cond (C : Cx) (m : Monad) (hm : m.isCond = true) :
     simp [negate, Monad.getsql, evc_not, hm]
     cases C.evc m'.getsql <;> simp
 
+
+/-! ### comparisons: `CmpMonad.__init__` with `coerce_monads` -/
+
+theorem hasTy_int {x : Scalar} (h : hasTy .int x) : ∃ i, x = .int i := by cases x <;> simp_all [hasTy]
+theorem hasTy_bool {x : Scalar} (h : hasTy .bool x) : ∃ i, x = .bool i := by cases x <;> simp_all [hasTy]
+theorem hasTy_str {x : Scalar} (h : hasTy .str x) : ∃ i, x = .str i := by cases x <;> simp_all [hasTy]
+
+/-- values of a given type: missing, or a scalar of that type -/
+theorem typed_cases {t : Ty} {v : Option Scalar} (h : ∀ x, v = some x → hasTy t x) :
+    v = none ∨ (match t with
+      | .int => ∃ i, v = some (.int i)
+      | .bool => ∃ b, v = some (.bool b)
+      | .str => ∃ s, v = some (.str s)) := by
+  cases v with
+  | none => exact Or.inl rfl
+  | some x =>
+    right
+    cases t
+    · obtain ⟨i, hi⟩ := hasTy_int (h x rfl); exact ⟨i, by rw [hi]⟩
+    · obtain ⟨i, hi⟩ := hasTy_bool (h x rfl); exact ⟨i, by rw [hi]⟩
+    · obtain ⟨i, hi⟩ := hasTy_str (h x rfl); exact ⟨i, by rw [hi]⟩
+
+theorem evc_cmp_of (C : Cx) (o : CmpOp) (s1 s2 : Sql) (a b : Val) (h1 : C.ev s1 = some a) (h2 : C.ev s2 = some b) :
+    C.evc (.cmp o s1 s2) = cmpVals o a b := by
+  simp only [Cx.ev] at h1 h2; simp only [Cx.evc, evalCond_cmp, h1, h2]
+
+theorem ev_toInt_of (C : Cx) (s : Sql) (a : Val) (h : C.ev s = some a) :
+    C.ev (.toInt s) = match a with
+      | .null => some .null
+      | .int i => some (.int i)
+      | .bool b => some (.int (boolInt b))
+      | .str _ => none := by
+  simp only [Cx.ev] at h; simp only [Cx.ev, eval, h]; cases a <;> rfl
+
+theorem cmp_vals_ok (C : Cx) (o : CmpOp) {t1 t2 : Ty} {s1 s2 : Sql} {v1 v2 : Option Scalar}
+    (h1 : C.ev s1 = some (encV C.d v1)) (h2 : C.ev s2 = some (encV C.d v2))
+    (ht1 : ∀ x, v1 = some x → hasTy t1 x) (ht2 : ∀ x, v2 = some x → hasTy t2 x)
+    (hc : sameClass (MTy.ofTy t1) (MTy.ofTy t2) = true) :
+    C.evc (.cmp o (coerceCmp C.d (MTy.ofTy t1) (MTy.ofTy t2) s1 s2).1 (coerceCmp C.d (MTy.ofTy t1) (MTy.ofTy t2) s1 s2).2) =
+      some (match v1, v2 with
+        | some a, some b => pyCmp o a b
+        | _, _ => .unk) := by
+  cases t1 <;> cases t2 <;> simp [sameClass, MTy.ofTy, MTy.isNum] at hc <;>
+  rcases v1 with _ | x <;> rcases v2 with _ | y <;> (try cases x) <;> (try cases y) <;>
+  (try (have hx := ht1 _ rfl; simp [hasTy] at hx)) <;> (try (have hy := ht2 _ rfl; simp [hasTy] at hy)) <;>
+  cases hd : C.d.isPg <;>
+  simp only [coerceCmp, MTy.ofTy, hd, Bool.false_and, Bool.true_and, Bool.and_self, Bool.or_self, Bool.and_false, Bool.false_or, Bool.or_false,
+    beq_self_eq_true, if_true, if_false, reduceCtorEq, decide_false, decide_true, Bool.false_eq_true, beq_iff_eq] <;>
+  (first
+    | (rw [evc_cmp_of C o _ _ _ _ h1 h2]; simp [encV, encS, hd, cmpVals, pyCmp, boolInt])
+    | (rw [evc_cmp_of C o _ _ _ _ (by rw [ev_toInt_of C _ _ h1]) h2]; simp [encV, encS, hd, cmpVals, pyCmp, boolInt])
+    | (rw [evc_cmp_of C o _ _ _ _ h1 (by rw [ev_toInt_of C _ _ h2])]; simp [encV, encS, hd, cmpVals, pyCmp, boolInt]))
+
 end PonyVerif.Model.Q
